@@ -213,6 +213,33 @@ def run(res, tier, seed, widen=1):
         ro = P.gen_readout(rng, with_crc=True, nlines=1)
         e = ro.find(b"!")
         items.append(ro[:e + 1] + b"0000\r\n")
+    # text traps: WELL-FORMED multi-byte UTF-8 (which a lenient codec would accept) exactly where the identification
+    # pattern wants a digit / a word character / a printable, where str.strip() would remove it, and as checksum digits
+    uni_digit = ["\u0665", "\uff15", "\u096b", "\u0e55"]
+    uni_word = ["\u00e9", "\u00df", "\u0416", "\u4e2d"]
+    uni_space = ["\u00a0", "\u2003", "\u3000", "\u0085", "\u2028"]
+    fullwidth = {c: chr(0xFF10 + i) for i, c in enumerate("0123456789")}
+    fullwidth.update({c: chr(0xFF21 + i) for i, c in enumerate("ABCDEF")})
+    data = b"1-0:1.7.0(00.100*kW)\r\n"
+    traps = []
+    for d in uni_digit:
+        traps.append(b"/ABC" + d.encode() + b"ID1\r\n")
+    for w in uni_word:
+        traps += [b"/ABC5\\" + w.encode() + b"ID1\r\n", b"/AB" + w.encode() + b"5ID1\r\n", b"/ABC5I" + w.encode() + b"D\r\n"]
+    for sp in uni_space:
+        traps += [b"/ABC5ID1" + sp.encode() + b"\r\n", sp.encode() + b"/ABC5ID1\r\n", b"/ABC5ID1\r" + sp.encode() + b"\n"]
+    for ident in traps:
+        body = ident + data + b"!"
+        items += [body + b"%04X\r\n" % P.crc16(body.lstrip()), body + b"\r\n"]
+    for ident in (b"/ABC5ID1\r\n", b"/KFM5KAIFA-METER\r\n"):
+        body = ident + data + b"!"
+        good = "%04X" % P.crc16(body)
+        items += [body + "".join(fullwidth[c] for c in good).encode() + b"\r\n",
+                  body + (fullwidth[good[0]] + good[1:]).encode() + b"\r\n",
+                  body + uni_space[0].encode() + good.encode() + b"\r\n",
+                  body + good.encode() + uni_space[2].encode() + b"\r\n",
+                  body + "".join(fullwidth[c] for c in "%04X" % ((P.crc16(body) + 1) & 0xFFFF)).encode() + b"\r\n"]
+    res.count("unicode_text_traps", 2 * len(traps) + 10)
     for i in range(0, len(items), 5000):
         _readouts(res, items[i:i + 5000], "from_bytes")
     hist = [it for it in items if rng.random() < 0.5]
